@@ -36,6 +36,35 @@ impl Block for PktSink {
     }
 }
 
+/// Pass-through that takes its time (widens timing windows in the runner around it).
+#[derive(rustradio_macros::Block)]
+#[rustradio(new)]
+struct SlowPass {
+    #[rustradio(in)]
+    src: ReadStream<Big>,
+    #[rustradio(out)]
+    dst: rustradio::stream::WriteStream<Big>,
+    ms: u64,
+}
+impl Block for SlowPass {
+    fn work(&mut self) -> Result<BlockRet> {
+        std::thread::sleep(std::time::Duration::from_millis(self.ms));
+        let (i, _) = self.src.read_buf()?;
+        if i.is_empty() {
+            return Ok(BlockRet::WaitForStream(&self.src, 1));
+        }
+        let mut o = self.dst.write_buf()?;
+        if o.is_empty() {
+            return Ok(BlockRet::WaitForStream(&self.dst, 1));
+        }
+        let n = i.len().min(o.len());
+        o.fill_from_slice(&i.slice()[..n]);
+        o.produce(n, &[]);
+        i.consume(n);
+        Ok(BlockRet::Again)
+    }
+}
+
 enum Port {
     U8(ReadStream<u8>),
     Big(ReadStream<Big>),
@@ -93,6 +122,10 @@ fn build(desc: &Value) -> std::result::Result<Built, String> {
             ("src_big", None, None) => {
                 let data: Vec<Big> = n["p"]["data"].as_array().ok_or("data")?.iter().map(|v| Big::of(v.as_u64().unwrap_or(0))).collect();
                 let (b, o) = VectorSource::new(data);
+                one!(b, Port::Big(o))
+            }
+            ("slow", Some(Port::Big(r)), None) => {
+                let (b, o) = SlowPass::new(r, pu(n, "ms", 3));
                 one!(b, Port::Big(o))
             }
             ("addconst", Some(Port::Big(r)), None) => {
@@ -375,6 +408,22 @@ fn run_one(desc: &Value, out: &mut impl Write) {
             // Run on OS threads under a wall-clock watchdog: a run that is still going after
             // `wall_s` seconds (tiny graphs take milliseconds) is reported as not terminating
             // and its threads are left behind.
+            // "bg": another, never-ending Graph runs in the same process meanwhile (process-wide
+            // state of the runners must not leak from one graph into another)
+            let bg = if desc["bg"].as_bool().unwrap_or(false) {
+                let (ctx_tx, ctx_rx) = std::sync::mpsc::channel();
+                let h = std::thread::spawn(move || {
+                    let mut g = Graph::new();
+                    let (src, o) = ConstantSource::new(0u8);
+                    g.add(Box::new(src));
+                    g.add(Box::new(NullSink::new(o)));
+                    let _ = ctx_tx.send(g.cancel_token());
+                    let _ = g.run();
+                });
+                ctx_rx.recv().ok().map(|tok| (tok, h))
+            } else {
+                None
+            };
             let (tx, rx) = std::sync::mpsc::channel();
             let is_st = runner == "graph";
             let order2 = order.clone();
@@ -401,6 +450,10 @@ fn run_one(desc: &Value, out: &mut impl Write) {
                     (outcome, msg) = ("hung", "run() did not return within the watchdog time".to_string());
                     (end, steps, exited) = ("no_termination", 0, false);
                 }
+            }
+            if let Some((tok, h)) = bg {
+                tok.cancel();
+                let _ = h.join();
             }
         }
         _ => {
